@@ -158,6 +158,21 @@ func checkFile(c fileCase) (fails []h.Failure) {
 				return // a byte stream may keep a leading BOM
 			}
 			judge(&fails, desc, valid, wantNoBOM, got, rerr, true)
+		case "whole":
+			// a valid file whose LAST statement displays 终: whatever odd character stands in it,
+			// either the program is rejected or it runs to its end - never a silent prefix of it
+			p := writeTemp(b)
+			var err error
+			out := h.Capture(func() {
+				_, err = exec.NewInterpreter("verif").SetExternalLibs(h.Libs()).LoadFile(p).Execute(r.ElementMap{})
+			})
+			if err != nil {
+				return
+			}
+			lines := strings.Split(strings.TrimSuffix(out, "\n"), "\n")
+			if lines[len(lines)-1] != "终" {
+				fails = append(fails, h.Failure{Sig: "decode/program-cut-short", Msg: fmt.Sprintf("%s: the file was executed without any error, but its last statement （显示：“终”） never ran; displayed lines: %q (a silently truncated program)", desc, lines)})
+			}
 		case "execute":
 			p := writeTemp(b)
 			var val r.Element
@@ -365,6 +380,35 @@ func TestExecuteCorrupted(t *testing.T) {
 		}
 	}
 	h.R.Exhaustive("execute", "6 invalid byte sequences inserted at every character offset of 3 programs")
+}
+
+// odd but valid characters (controls incl. U+0000, format characters, noncharacters, unusual
+// spaces) inserted at every offset before the last statement of small programs
+func TestOddCharacters(t *testing.T) {
+	progs := []string{
+		"令A=1\n（显示：A）\n（显示：“终”）\n",
+		"令A = “文本” // 注释\n如果A为“文本”：\n    （显示：A）\n/* 块\n注释 */\n（显示：“终”）\n",
+		"如何F？\n    输出1\n\n令表=【1，2】\n注：说明\n（显示：“终”）\n",
+	}
+	odd := []rune{0x0000, 0x0001, 0x0004, 0x0007, 0x0008, 0x000B, 0x000C, 0x001A, 0x001B, 0x001F, 0x007F, 0x0080, 0x0085, 0x009F,
+		0x00A0, 0x00AD, 0x034F, 0x061C, 0x1680, 0x180E, 0x2000, 0x200B, 0x200D, 0x200E, 0x2028, 0x2029, 0x202E, 0x205F, 0x2060,
+		0x3000, 0xE000, 0xFDD0, 0xFEFF, 0xFFF9, 0xFFFD, 0xFFFE, 0xFFFF, 0x1FFFF, 0xE0001, 0x10FFFF}
+	for pi, p := range progs {
+		rs := []rune(p)
+		last := strings.LastIndex(p, "（显示：“终”）")
+		limit := len([]rune(p[:last]))
+		for off := 0; off <= limit; off++ {
+			if off > 0 && rs[off-1] == '*' && rs[off] == '/' {
+				continue // splits the comment closer: the rest of the file IS a comment then
+			}
+			for _, x := range odd {
+				src := string(rs[:off]) + string(x) + string(rs[off:])
+				c := mk([]byte(src), "whole", nil, fmt.Sprintf("[program %d, U+%04X inserted at character %d]", pi, x, off))
+				h.R.Case(t, "oddchar", fmt.Sprintf("%d/%d/%x", pi, off, x), c, []string{fmt.Sprintf("odd-character:U+%04X", x)}, x < 0x20 || off > 0, checkFile(c))
+			}
+		}
+	}
+	h.R.Exhaustive("oddchar", "40 odd code points (controls incl. U+0000, format characters, noncharacters, unusual spaces) inserted at every character offset before the last statement of 3 programs")
 }
 
 func TestCorpus(t *testing.T) { h.RunCorpus(t, "c17", replay) }
